@@ -429,7 +429,11 @@ def realize(node, spec, rz=None):
     elif k == "virtual":
         c = realize(node, spec["content"], rz)
         wrong = realize(node, spec["wrong"], rz) if spec.get("wrong") else 0
+        if spec.get("reordered"):
+            declared_as, c = c, realize(node, spec["reordered"], rz)
         g = node.gen_new(c, spec["declare_form"], spec["declare_length"], wrong, 0, spec["key"])
+        if spec.get("reordered") and spec["declare_form"]:
+            node.gen_declare_form_of(g, declared_as)
         rz.gens[spec["key"]] = g
         h = node.virtual(g, rz.cache if spec.get("cached", True) else 0, spec["key"])
         rz.virtuals[spec["key"]] = h
@@ -539,9 +543,61 @@ def strip_virtuals(spec):
     return d
 
 
-def wrong_form_variant(spec):
+def _first_named_record(s):
+    """first RecordArray node with at least two named fields, not looking through VirtualArray nodes"""
+    if s["k"] == "virtual":
+        return None
+    if s["k"] == "record" and s.get("keys") and len(s["keys"]) >= 2:
+        return s
+    for c in ([s["content"]] if "content" in s else s.get("contents", [])):
+        x = _first_named_record(c)
+        if x is not None:
+            return x
+    return None
+
+
+def reordered_variant(spec):
+    """the same tree with the fields of its first named record in reverse order: the same value (fields are found by
+    name) and a Form that a Form declared in the original order must accept. None when there is no such record or when
+    VirtualArray nodes are nested inside (their keys would exist twice)."""
+    import copy
+    if virtual_keys(spec):
+        return None
+    d = copy.deepcopy(spec)
+    rec = _first_named_record(d)
+    if rec is None:
+        return None
+    rec["keys"] = rec["keys"][::-1]
+    rec["contents"] = rec["contents"][::-1]
+    return d
+
+
+def swapped_fields_variant(spec):
+    """the same tree with the names of two fields of different type exchanged in its first named record: same keys,
+    same length, another Form. None when there is no such record."""
+    d = strip_virtuals(spec)
+    rec = _first_named_record(d)
+    if rec is None:
+        return None
+
+    def sig(c):
+        return (c["k"], c.get("dtype"), c.get("param"))
+    for i in range(len(rec["keys"])):
+        for j in range(i + 1, len(rec["keys"])):
+            if sig(rec["contents"][i]) != sig(rec["contents"][j]):
+                rec["keys"][i], rec["keys"][j] = rec["keys"][j], rec["keys"][i]
+                return d
+    return None
+
+
+def wrong_form_variant(spec, r=None):
     """the same tree with the first numeric leaf reinterpreted as another primitive type of the same size: an array
-    of the right length whose Form differs from the declared one. None when the tree has no such leaf."""
+    of the right length whose Form differs from the declared one. None when the tree has no such leaf. With a PRNG:
+    sometimes the names of two record fields of different type are exchanged instead."""
+    if r is not None and r.random() < 0.4:
+        d = swapped_fields_variant(spec)
+        if d is not None:
+            return d
     d = strip_virtuals(spec)
 
     def walk(s):
@@ -584,7 +640,12 @@ def insert_virtuals(r, spec, nmax, declare_form, declare_length, prefix="k"):
         key = "%s%d" % (prefix, count[0])
         count[0] += 1
         v = {"k": "virtual", "key": key, "content": s, "declare_form": declare_form, "declare_length": declare_length,
-             "cached": True, "wrong": wrong_form_variant(s)}
+             "cached": True, "wrong": wrong_form_variant(s, r)}
+        if r.random() < 0.2:
+            # the generator returns the record with its fields in another order than the declared Form lists them
+            ro = reordered_variant(s)
+            if ro is not None:
+                v["reordered"] = ro
         return v
     root = d
     # wrap deepest first so that parents stay reachable
